@@ -87,13 +87,13 @@ func vpC17Check(t *rapid.T, l *vpLedger, where string) {
 
 func TestVP_C17_supply(t *testing.T) {
 	c := kit.New(t, "C17", "rapid: finalized histories (10..60 actions: deposits, transfers with fan-in/out, withdrawal submits/claims, mints, node removals, pledges and accepts, batched snapshots, already-final transactions finalized again on other chains) over 3 assets on a real store; after every finalization the recorded total must equal the model (genesis+deposits+mints-submits) and the UTXO-prefix scan of outputs not consumed by a finalized tx, within [0,capacity]; non-trivial = history with a spend of a deposit-derived output and a submit; distinct by last tx hash")
-	c.Require("has-submit", "has-spend", "has-mint", "has-claim", "has-remove", "has-batch", "has-refinalize", "has-pledge", "has-accept")
+	c.Require("has-submit", "has-spend", "has-mint", "has-claim", "has-remove", "has-batch", "has-refinalize", "has-pledge", "has-accept", "capacity-crossing-refused")
 	kit.SetChecks(kit.N(100, 4000))
 	rapid.Check(t, func(t *rapid.T) {
 		l := vpLNewLedger(7, "c17", 6)
 		defer l.Close()
 		steps := rapid.IntRange(10, 60).Draw(t, "steps")
-		var nsub, nspend, nmint, nclaim, nremove, nbatch, nrefin, npledge, naccept int
+		var nsub, nspend, nmint, nclaim, nremove, nbatch, nrefin, npledge, naccept, ncross int
 		for i := 0; i < steps; i++ {
 			k := rapid.IntRange(0, 14).Draw(t, "kind")
 			fin := rapid.IntRange(0, 2).Draw(t, "fin") != 0
@@ -164,8 +164,52 @@ func TestVP_C17_supply(t *testing.T) {
 			}
 		}
 		vpC17Check(t, l, "at end")
+		// the capacity bound is on the running supply, not on one transaction:
+		// custodian-signed BTC deposits (capacity 2500), each well below the
+		// capacity, are locked and stored past validation's own pre-check (as
+		// pending deposits of several snapshots are) and finalized one by one;
+		// a finalization that would lift the supply above the capacity must be
+		// refused and leave the database as it was
+		if rapid.IntRange(0, 2).Draw(t, "cross_capacity") == 0 {
+			btc := &l.Assets[1]
+			capUnits := vpLBig(common.GetAssetCapacity(btc.Id))
+			for j := 0; j < 6; j++ {
+				l.Seq++
+				amt := common.NewInteger(uint64(rapid.IntRange(300, 900).Draw(t, "cross_amt")))
+				ver := l.BuildDeposit(btc, amt, vpLOut{Owners: []int{0}, Threshold: 1}, fmt.Sprintf("0xcross%d", l.Seq), 0, nil)
+				if err := ver.LockInputs(l.Store, false); err != nil {
+					t.Fatalf("lock crossing deposit: %v", err)
+				}
+				if err := l.Store.WriteTransaction(ver); err != nil {
+					t.Fatalf("persist crossing deposit: %v", err)
+				}
+				would := new(big.Int).Add(l.total(btc.Id), vpLBig(amt))
+				snap := l.MakeSnapshot(rapid.IntRange(0, 6).Draw(t, "cross_chain"), []crypto.Hash{ver.PayloadHash()}, l.Tick(1000))
+				before := vpLDump(l.Store)
+				var err error
+				pan := vpLCatch(func() { err = l.Store.WriteSnapshot(snap, l.NodeIds) })
+				if would.Cmp(capUnits) > 0 {
+					if err == nil && pan == nil {
+						t.Fatalf("a deposit of %s was finalized although it lifts the BTC supply to %s units, above the capacity %s", amt, would, capUnits)
+					}
+					if d := vpLDumpDiff(before, vpLDump(l.Store)); len(d) > 0 {
+						t.Fatalf("refused over-capacity finalization changed the store: %v", d[:min(len(d), 6)])
+					}
+					ncross++
+					break
+				}
+				if err != nil || pan != nil {
+					t.Fatalf("deposit within the capacity (supply would be %s of %s) refused: %v %v", would, capUnits, err, pan)
+				}
+				l.noteAdmitted(ver, "deposit")
+				l.Topo = snap.TopologicalOrder + 1
+				l.Snapshots = append(l.Snapshots, snap)
+				l.applyFinal(ver.PayloadHash(), snap.Hash)
+				vpC17Check(t, l, fmt.Sprintf("after crossing deposit %d", j))
+			}
+		}
 		var cl []string
-		for name, n := range map[string]int{"has-submit": nsub, "has-spend": nspend, "has-mint": nmint, "has-claim": nclaim, "has-remove": nremove, "has-batch": nbatch, "has-refinalize": nrefin, "has-pledge": npledge, "has-accept": naccept} {
+		for name, n := range map[string]int{"has-submit": nsub, "has-spend": nspend, "has-mint": nmint, "has-claim": nclaim, "has-remove": nremove, "has-batch": nbatch, "has-refinalize": nrefin, "has-pledge": npledge, "has-accept": naccept, "capacity-crossing-refused": ncross} {
 			if n > 0 {
 				cl = append(cl, name)
 			}
